@@ -45,6 +45,17 @@ impl Config {
 }
 
 impl Config {
+    /// The largest bonus a single character can receive. When matching paths the
+    /// delimiter bonus is larger than the whitespace bonus.
+    #[inline]
+    pub(crate) fn max_bonus(&self) -> u16 {
+        if self.bonus_boundary_white > self.bonus_boundary_delimiter {
+            self.bonus_boundary_white
+        } else {
+            self.bonus_boundary_delimiter
+        }
+    }
+
     /// Configures the matcher with bonuses appropriate for matching file paths.
     pub fn set_match_paths(&mut self) {
         if cfg!(windows) {
